@@ -33,6 +33,9 @@ open SamVerif.Backends
 #print axioms vec_eq_agree_partial
 #print axioms concat_agree
 #print axioms str_eq_agree
+#print axioms strEqLoopWith_same
+#print axioms strEqLoopWith_mixed_counterexample
+#print axioms strEq_iff
 #print axioms fromInt_agree
 #print axioms wasm_toInt_fromInt
 #print axioms ts_toInt_fromInt
